@@ -155,6 +155,62 @@ theorem count_body_pad (al : List Byte) (body : List Byte) (k : Nat) (hp : padCh
   rw [List.count_append, List.count_replicate_self, List.count_eq_zero.mpr (fun h => hp (hb _ h))]
   omega
 
+/-! ## base64_decode: the `int in_` index, exactly -/
+
+/-- the array loop, like the list loop, sees only the leading letters -/
+theorem decLoopM_prefix : ∀ (s : List Byte) (in_ : Nat) (arr : List Byte) (i : Nat) (ret : List Byte),
+    decLoopM s in_ arr i ret = decLoopM (lettersPrefix stdAlphabet s) in_ arr i ret
+  | [], _, _, _, _ => rfl
+  | c :: rest, in_, arr, i, ret => by
+    by_cases h : (letterVal stdAlphabet c).isSome = true
+    · have ht : (c == 0x3D#8 || !isBase64 c) = false := by rw [loopTest_iff, h]; rfl
+      simp only [lettersPrefix, List.takeWhile_cons, h, if_true]
+      rw [decLoopM, decLoopM]
+      simp only [ht, Bool.false_eq_true, if_false]
+      split
+      · rfl
+      · split
+        · rfl
+        · split
+          · split
+            · rfl
+            · exact decLoopM_prefix rest _ _ _ _
+          · exact decLoopM_prefix rest _ _ _ _
+    · have ht : (c == 0x3D#8 || !isBase64 c) = true := by rw [loopTest_iff]; simp at h; simp [h]
+      simp only [lettersPrefix, List.takeWhile_cons, h]
+      simp [decLoopM, ht]
+
+/-- on a run of letters that reaches index `2^31` the loop faults, whatever the array state -/
+theorem decLoopM_overflow : ∀ (p : List Byte) (in_ : Nat) (arr : List Byte) (i : Nat) (ret : List Byte),
+    (∀ c ∈ p, (letterVal stdAlphabet c).isSome = true) → in_ < 2 ^ 31 → 2 ^ 31 ≤ in_ + p.length →
+    decLoopM p in_ arr i ret = none
+  | [], in_, _, _, _, _, h1, h2 => by simp at h2; omega
+  | c :: rest, in_, arr, i, ret, hp, h1, h2 => by
+    have h := hp c (by simp)
+    have ht : (c == 0x3D#8 || !isBase64 c) = false := by rw [loopTest_iff, h]; rfl
+    simp only [List.length_cons] at h2
+    rw [decLoopM]
+    simp only [ht, Bool.false_eq_true, if_false]
+    split
+    · rfl
+    · split
+      · rfl
+      · have ih := fun a j r => decLoopM_overflow rest (in_ + 1) a j r
+          (fun x hx => hp x (by simp [hx])) (by omega) (by omega)
+        split
+        · split
+          · rfl
+          · exact ih _ _ _
+        · exact ih _ _ _
+
+theorem lettersPrefix_all (s : List Byte) :
+    ∀ c ∈ lettersPrefix stdAlphabet s, (letterVal stdAlphabet c).isSome = true :=
+  fun c hc => mem_takeWhile_true _ _ c hc
+
+theorem lettersPrefix_idem (s : List Byte) :
+    lettersPrefix stdAlphabet (lettersPrefix stdAlphabet s) = lettersPrefix stdAlphabet s :=
+  takeWhile_all _ _ (lettersPrefix_all s)
+
 /-! ## byte order -/
 
 theorem objByte_macroOff {w : Nat} (e : Endian) (n j : Nat) (v : BitVec w) (h : j < n) :
